@@ -133,3 +133,9 @@ func (n *BitcoinNode) VerifTakeOutgoing() []wire.Message {
 		}
 	}
 }
+
+// VerifCompleteHandshake performs the step that follows a completed version / verack exchange
+// (handshake marked complete, protoconf and the chain verification request queued).
+func (n *BitcoinNode) VerifCompleteHandshake(ctx context.Context) error {
+	return n.sendVerifyInitiation(ctx)
+}
